@@ -564,6 +564,19 @@ class SymExec(object):
             return self.branch(s.test, s.body, s.orelse, st)
         if isinstance(s, ast.For):
             return self.loop(s, st)
+        if isinstance(s, ast.While):
+            # summarised as zero-or-one iteration: the body's effects are recorded once, the loop test is not interpreted
+            st.events.append(("loop", "while", unparse(s.test), s.lineno))
+            declared = set(st.env)
+            skip = st.fork()
+            st.loops.append(("while", unparse(s.test), declared))
+            outs = self.block(s.body, [st])
+            for o in outs:
+                if o.loops:
+                    o.loops.pop()
+                if o.done == "loopexit":
+                    o.done = False
+            return outs
         if isinstance(s, ast.Return):
             st.ret = self.ev(s.value, st) if s.value is not None else None
             st.done = True
